@@ -420,7 +420,7 @@ _EXTRA_FLOORS = {
     "C03": {"first-use-in-fresh-process:ok": 100, "unreachable-code:accepted": 900, "union-call:accepted": 300, "special-constants:accepted": 12000},
     "C04": {"identity-twin-templates": 24},
     "C05": {"probes-after-unrelated-work": 450, "programs-executed-again": 5000},
-    "C06": {"closure-creation-templates": 14, "name-shape-templates": 380},
+    "C06": {"closure-creation-templates": 14, "name-shape-templates": 400},
     "C07": {"order-family-cases": 5000, "scale-cases": 450},
     "C08": {"form_same_operand": 1000, "form_comparison_compound": 100000},
     "C09": {"chain_first_steps": 550, "nested_bound_cases": 650, "long-sequence-cases": 120},
